@@ -251,6 +251,13 @@ def one(names, what, where=""):
     return names[0]
 
 
+class RoleBinding(dict):
+    """role -> current local name; .fn is a private copy of the function when a role had to be given a local by
+    hoisting its (inlined) expression, else None.  canonicalise() uses that copy."""
+
+    fn = None
+
+
 def bind_roles(fn, roles, where=""):
     """Resolve role names to the current local names of `fn`.
 
@@ -263,11 +270,57 @@ def bind_roles(fn, roles, where=""):
     pattern: str compared with norm(value) after substituting {role} by the names bound so far; a str starting with
     "~" is a regular expression (fullmatch, after substitution, other text NOT escaped); or a callable(norm, node).
     Every role must bind to exactly one name (fail closed).  Returns {role: current_name}."""
+    import copy as _copy
     import re as _re
 
     from .index import AnchorMissing
 
-    bound = {}
+    bound = RoleBinding()
+    orig_fn = fn
+
+    def _hoist(role, m):
+        """The index normaliser inlines single-use call temporaries; a role that is written as an assignment may therefore
+        have no local on this tree.  If exactly one call expression matches the role's pattern, give it a local named
+        after the role in a private copy of the function (`role = <expr>` before the statement that uses it)."""
+        nonlocal fn
+        work = _copy.deepcopy(fn) if fn is orig_fn else fn
+        hits = []
+        for blk_owner in ast.walk(work):
+            lists = [getattr(blk_owner, f, None) for f in ("body", "orelse", "finalbody")]
+            if isinstance(blk_owner, ast.Try):
+                lists += [h.body for h in blk_owner.handlers]
+            for stmts in lists:
+                if not isinstance(stmts, list):
+                    continue
+                for i, st in enumerate(stmts):
+                    if not isinstance(st, (ast.Expr, ast.Assign, ast.AugAssign, ast.Return, ast.If, ast.While, ast.Raise, ast.With, ast.For, ast.Assert)):
+                        continue
+                    roots = [getattr(st, f, None) for f in ("value", "test", "exc", "iter")] + ([i_.context_expr for i_ in st.items] if isinstance(st, ast.With) else [])
+                    for root in roots:
+                        if root is None:
+                            continue
+                        for n in ast.walk(root):
+                            if isinstance(n, ast.Call) and m(norm(n), n) and not (isinstance(st, ast.Assign) and n is st.value and len(st.targets) == 1 and isinstance(st.targets[0], ast.Name)):
+                                hits.append((stmts, st, n))
+        if len(hits) != 1:
+            return None
+        stmts, st, node = hits[0]
+        used = {n.id for n in ast.walk(work) if isinstance(n, ast.Name)} | {a.arg for a in ast.walk(work) if isinstance(a, ast.arg)}
+        name = role if role not in used else f"_role_{role}"
+        if name in used:
+            return None
+
+        class _Rep(ast.NodeTransformer):
+            def visit_Call(self, n):
+                if n is node:
+                    return ast.copy_location(ast.Name(id=name, ctx=ast.Load()), n)
+                return self.generic_visit(n)
+
+        asg = ast.copy_location(ast.Assign(targets=[ast.copy_location(ast.Name(id=name, ctx=ast.Store()), node)], value=node, type_comment=None), st)
+        _Rep().visit(st)
+        stmts.insert([k for k, s_ in enumerate(stmts) if s_ is st][0], asg)
+        fn = work
+        return name
 
     def matcher(pat):
         if callable(pat):
@@ -310,9 +363,14 @@ def bind_roles(fn, roles, where=""):
         if idx is not None:
             cands = [c[idx] for c in cands if isinstance(c, tuple) and len(c) > idx]
         cands = list(dict.fromkeys(cands))
+        if kind == "assign" and not cands and idx is None:
+            h_ = _hoist(role, m)
+            if h_ is not None:
+                cands = [h_]
         if len(cands) != 1 or not isinstance(cands[0], str) or not cands[0].isidentifier():
             raise AnchorMissing(f"{where}: cannot bind role `{role}` ({spec[:2]}): candidates {cands}")
         bound[role] = cands[0]
+    bound.fn = fn if fn is not orig_fn else None
     return bound
 
 
@@ -333,6 +391,8 @@ def canonicalise(fn, bound):
 
     from .index import AnalysisError
 
+    if getattr(bound, "fn", None) is not None:
+        fn = bound.fn
     ren = {cur: role for role, cur in bound.items() if cur != role}
     if not ren:
         return fn
